@@ -43,6 +43,8 @@ pub struct Ctx {
     pub api_fp: u64,
     pub foreign: Option<String>,
     pub run: u64,
+    /// events executed on sub-run disks
+    pub extra_events: u64,
 }
 
 impl Ctx {
@@ -60,6 +62,7 @@ impl Ctx {
             api_fp: 0,
             foreign: None,
             run,
+            extra_events: 0,
         }
     }
     pub fn is(&self, p: &str) -> bool {
@@ -73,6 +76,22 @@ impl Ctx {
     pub fn eval(&mut self, extra: u64, nontrivial: bool) {
         let fp = mix(mix(self.api_fp, self.disk.fp()), extra);
         self.evals.push((fp, nontrivial));
+    }
+    /// record one evaluation that ran on its own disk
+    pub fn eval_fp(&mut self, fp: u64, nontrivial: bool) {
+        let fp = mix(self.api_fp, fp);
+        self.evals.push((fp, nontrivial));
+    }
+    /// adopt the trace of a sub-run's disk (used when that sub-run is the violating one)
+    pub fn adopt_trace(&mut self, sub: &Disk, title: &str) {
+        if self.trace {
+            let lines = sub.take_trace();
+            self.disk.note(|| format!("---- {title}"));
+            let mut d = self.disk.0.borrow_mut();
+            if let Some(t) = d.trace.as_mut() {
+                t.extend(lines.into_iter().map(|l| format!("   {l}")));
+            }
+        }
     }
     pub fn note(&self, f: impl FnOnce() -> String) {
         if self.trace {
